@@ -18,6 +18,7 @@ Inductive pobs :=
 Record pcase := {
   pc_src : list Z;
   pc_floats : list (list Z * option Z);
+  pc_cx : list (Z * Z * (Z * Z));   (* (re, im, (abs, phase)): cmplx.Abs / cmplx.Phase of the complex literals, for the collator *)
   pc_toks : list token;
   pc_out : pobs;
   pc_leak : bool;       (* a goroutine in scanTokens was still there after the call *)
@@ -30,9 +31,25 @@ Definition table_fparse (tbl : list (list Z * option Z)) (t : list Z) : option Z
   | None => None
   end.
 
+(* The parser model leaves the two oracle fields of a complex number (cmplx.Abs, cmplx.Phase)
+   at 0; the collator model of Value.v ranks complex numbers by them, so they are filled in
+   from the table of the case before two values are ranked. *)
+Fixpoint decorate (tbl : list (Z * Z * (Z * Z))) (v : val) {struct v} : val :=
+  match v with
+  | VComplex w re im _ _ =>
+    match find (fun e => (fst (fst e) =? re) && (snd (fst e) =? im)) tbl with
+    | Some e => VComplex w re im (fst (snd e)) (snd (snd e))
+    | None => v
+    end
+  | VSeq k l => VSeq k (map (decorate tbl) l)
+  | VAssoc k x => VAssoc (decorate tbl k) (decorate tbl x)
+  | VMapping m ks vs => VMapping m (map (decorate tbl) ks) (map (decorate tbl) vs)
+  | _ => v
+  end.
+
 (* the default collator of Value.v as the Set constructor's ranking *)
-Definition default_crank (a b : val) : option comparison :=
-  match rank0 (Z.to_nat Params.collator_default_maximum) a b with
+Definition default_crank (tbl : list (Z * Z * (Z * Z))) (a b : val) : option comparison :=
+  match rank0 (Z.to_nat Params.collator_default_maximum) (decorate tbl a) (decorate tbl b) with
   | R c => Some c
   | _ => None
   end.
@@ -84,7 +101,7 @@ Definition outcome_ok (o : outcome) (obs : pobs) : bool :=
   end.
 
 Definition model_outcome (c : pcase) : outcome :=
-  parse_source (table_fparse (pc_floats c)) default_crank (pc_src c).
+  parse_source (table_fparse (pc_floats c)) (default_crank (pc_cx c)) (pc_src c).
 
 (* first disagreement of a case: 1 token stream, 2 outcome, 3 scanner goroutine left
    behind (the repaired ParseSource never leaves one), 4 schedule dependence *)
@@ -107,7 +124,7 @@ Fixpoint pmismatches_from (n : nat) (cases : list pcase) : list (nat * nat) :=
 Definition pmismatches (cases : list pcase) : list (nat * nat) := pmismatches_from 0 cases.
 
 Definition empty_case : pcase :=
-  {| pc_src := []; pc_floats := []; pc_toks := []; pc_out := OHang; pc_leak := false; pc_stable := true |}.
+  {| pc_src := []; pc_floats := []; pc_cx := []; pc_toks := []; pc_out := OHang; pc_leak := false; pc_stable := true |}.
 
 (* what the model computes for a case: its token stream and outcome, next to the observed ones *)
 Definition case_report (c : pcase) :=
